@@ -4,8 +4,8 @@
 From Sim Require Import Variant.
 
 Definition current : variant :=
-  {| d2_clock_fixed := true; d17_resolver_back := false; d1_bytes_sent_init := false;
-     d15_udp_release_whole := false; d16_udp_close_clears := false;
-     d7_wakeup_fixed := false; d6_close_clears := false; d12_accept_visible_ep := false;
-     d13_acceptor_close := false; d14_nat_syn_only := false; d18_accept_mss := false;
-     d26_writer_wakeup := false |}.
+  {| d2_clock_fixed := true; d17_resolver_back := true; d1_bytes_sent_init := true;
+     d15_udp_release_whole := true; d16_udp_close_clears := true;
+     d7_wakeup_fixed := true; d6_close_clears := true; d12_accept_visible_ep := true;
+     d13_acceptor_close := true; d14_nat_syn_only := true; d18_accept_mss := true;
+     d26_writer_wakeup := true; d11a_drop_guard := true |}.
